@@ -50,6 +50,7 @@ def gen_case(rng, big=False, no_gc=False, empty_anti=False, lone=False, dead_ant
     has_depth = rng.random() < 0.9
     sizes = rng.permutation(np.arange(40, 40 + 4 * nt + 50))[:nt]
     rows = []
+    twins = rng.random() < 0.35
     # distribute bins over chromosomes
     tchrom = np.sort(rng.integers(0, len(names), nt))
     if lone and len(names) > 1:
@@ -73,6 +74,9 @@ def gen_case(rng, big=False, no_gc=False, empty_anti=False, lone=False, dead_ant
                 gap = int(rng.choice([0, 1, 30, 120, 249, 250, 251, 400, 3000])) if rng.random() < 0.6 else int(rng.integers(0, 600))
                 pos += gap
                 rows.append((prefix + nm, pos, pos + tt[ti], f"G{ci}_{ti // 4}", "t"))
+                if twins and rng.random() < 0.04:
+                    # a second bait anchored at the same base, longer (nested baits): same chromosome and start, different end
+                    rows.append((prefix + nm, pos, pos + tt[ti] + int(rng.integers(5, 40)), f"G{ci}_{ti // 4}", "t"))
                 pos += tt[ti]
                 ti += 1
             else:
